@@ -425,6 +425,12 @@ def build(seed, tier, focus='all'):
         d["root"] = keep
     # quick tier: element-level roots get 2 attributes x 2 items, except the first two per trait-independent
     # "deep" roots which keep 3 x 3 over a 3-letter alphabet
+    if tier != "quick" and focus == "enum":
+        # the attribute walk of element-level roots is the `element` focus's business (three items x two attributes over
+        # eight letters is 40 000 states per root); here they keep the quick tier's two items
+        for d in c.decls:
+            if d["root"] and d["trait"] != "FromMeta":
+                d["max_items"] = min(d["max_items"], 2)
     if tier == "quick":
         deep = 0
         for d in c.decls:
@@ -441,7 +447,8 @@ def build(seed, tier, focus='all'):
             al = alphabet(c, d, d["rename_all"], 2, rng)
             elem = d["trait"] != "FromMeta"
             if focus == "suggest":
-                d["alpha"] = suggest_alphabet(c, d, rng)[: (30 if tier == "quick" else 80)]
+                al_s = suggest_alphabet(c, d, rng)
+                d["alpha"] = al_s[: (80 if d.pop("deep_chain", False) or tier != "quick" else 30)]
                 d["max_items"] = 2 if len(d["alpha"]) <= 20 else 1
                 d["max_attrs"] = 1
                 continue
@@ -548,7 +555,10 @@ def suggest_alphabet(c, d, rng):
         near += misspell(n, rng)
     near += [n for f in d["fields"] if f["skip"] for n in [eff_field(rule, f)] if writable(n)]
     rng.shuffle(near)
-    out = [meta(n, "nv", "s:v1") for n in near[:14]]
+    # a flatten chain of depth >= 2 improves one suggestion more than once on the way out: every near miss of every level
+    deep_chain = any(f["flatten"] and any(g["flatten"] for g in c.decls[f["ty"]["id"] - 1]["fields"]) for f in d["fields"])
+    d["deep_chain"] = deep_chain
+    out = [meta(n, "nv", "s:v1") for n in (sorted(set(near)) if deep_chain else near[:14])]
     # inside nested (non-flatten) receivers: names close to the OUTER level's names and to the inner ones
     for f in d["fields"]:
         for t, holder in ([(f["ty"], d)] if not f["flatten"] else [(x["ty"], c.decls[f["ty"]["id"] - 1]) for x in c.decls[f["ty"]["id"] - 1]["fields"]]):
